@@ -102,7 +102,7 @@ impl Scenario for Ribbit {
         "exploration"
     }
     fn rule(&self) -> &'static str {
-        "Per run: a generated build database of 1-6 records (product names command-safe; version/build/keyring/cdn_path strings from the classes plain, digits, leading zeros, with '|', with '#', with spaces, with CR/LF, non-ASCII, 1 KiB long, non-numeric build, non-hex keyring; several builds per product with RFC 3339 timestamps in varying offsets and precisions incl. exact ties) is written to the sandbox and loaded by the REAL server state; databases the server rejects are vacuous. The real TCP accept loop + handle_connection run on the simulated listener and the real axum Router is driven in-process; 1-5 clients start concurrently at seeded virtual times: well-formed requests through the real RibbitClient (TCP v1 with MIME + checksum verification, TCP v2) and real TactClient (HTTP), and malformed ones (unknown product/version, wrong arity, empty line, 64 KiB line, non-UTF-8, never terminated, one byte per virtual second, connect-and-close) over raw simulated connections. Oracle: every row's typed fields equal the record with the chronologically newest build_time of that product; malformed requests end in an error reply or a closed connection within 10 s + 1 s of virtual time; no task panics; after the last malformed client has started a fresh well-formed request is answered correctly within 1 virtual second. Non-trivial = >= 2 clients; distinct = hash of (case, outcomes)."
+        "Per run: a generated build database of 1-6 records (product names command-safe; version/build/keyring/cdn_path strings from the classes plain, digits, leading zeros, with '|', with '#', with spaces, with CR/LF, non-ASCII, 1 KiB long, non-numeric build, non-hex keyring; several builds per product with RFC 3339 timestamps in varying offsets and precisions incl. exact ties) is written to the sandbox and loaded by the REAL server state; databases the server rejects are vacuous. The real TCP accept loop + handle_connection run on the simulated listener and the real axum Router is driven in-process; 1-5 clients start concurrently at seeded virtual times: well-formed requests through the real RibbitClient (TCP v1 with MIME + checksum verification, TCP v2) and real TactClient (HTTP), and malformed ones (unknown product/version, wrong arity, empty line, 64 KiB line, non-UTF-8, never terminated, one byte per virtual second, connect-and-close) over raw simulated connections. Oracle: every row's typed fields equal the record with the chronologically newest build_time of that product; malformed requests end in an error reply or a closed connection within 10 virtual minutes (the server's own read time-out is 10 s; the bound is generous because that time-out is tuning, not part of the property); no task panics; after the last malformed client has started a fresh well-formed request is answered correctly within 3 virtual seconds (a server that serialises connections behind a stalled client takes its whole read time-out). Non-trivial = >= 2 clients; distinct = hash of (case, outcomes)."
     }
     fn assumptions(&self) -> Vec<&'static str> {
         vec![
@@ -531,10 +531,11 @@ async fn run(case: &Case, ctx: &mut Ctx) -> Option<Violation> {
                             let _ = end.write_all(&line).await;
                         }
                     }
-                    // the server must answer with an error or close within 10 s + 1 s (virtual)
+                    // the server must answer with an error or close the connection eventually. Its read time-out
+                    // (10 s today) is tuning the property does not fix, and virtual time is free: allow 10 minutes
                     let mut got = Vec::new();
                     let mut buf = [0u8; 4096];
-                    let deadline = Duration::from_secs(11).saturating_sub(t0.elapsed().min(Duration::from_secs(11)));
+                    let deadline = Duration::from_secs(600).saturating_sub(t0.elapsed().min(Duration::from_secs(600)));
                     let closed = tokio::time::timeout(deadline.max(Duration::from_millis(1)), async {
                         loop {
                             match end.read(&mut buf).await {
@@ -625,8 +626,8 @@ async fn run(case: &Case, ctx: &mut Ctx) -> Option<Violation> {
                 ctx.event(|| json!({"k":"op","client":"liveness_probe","took_ms":took as u64,"ok":res.is_ok()}));
                 ctx.count("liveness_probes");
                 let j = judge("tcp1", &p, "versions", &res);
-                if took > 1000 {
-                    set(Violation::new("C15.bounded_liveness", "server_wedged", "C15/ribbit/server_wedged", format!("a well-formed request sent after the last malformed client had started took {took} ms of virtual time (bound: 1000 ms)")));
+                if took > 3000 {
+                    set(Violation::new("C15.bounded_liveness", "server_wedged", "C15/ribbit/server_wedged", format!("a well-formed request sent after the last malformed client had started took {took} ms of virtual time (bound: 3000 ms)")));
                 } else if let Err((class, extra, detail)) = j {
                     set(Violation::new(&format!("C15.{class}"), &class, format!("C15/ribbit/{class}{extra}"), format!("(liveness probe) {detail}")));
                 }
